@@ -13,6 +13,7 @@ import Peppi.Lemmas.PortMap
 import Peppi.PremisesCore
 import Peppi.Lemmas.Example
 import Peppi.Lemmas.Lengths
+import Peppi.Lemmas.Wrapped
 set_option linter.unusedVariables false
 namespace Peppi.Props.C04
 
@@ -214,5 +215,16 @@ open Extracted in
 theorem rebuild_mem : ∀ (shape : List PortOccupancy) (slots : List DCols), slots.length = nSlots shape →
     ∀ p ∈ rebuild shape slots, p.leader ∈ slots ∧ ∀ f, p.follower = some f → f ∈ slots :=
   _root_.Peppi.rebuild_mem 
+
+/- from `Peppi.Lemmas.Wrapped` -/
+open Extracted in
+theorem parseEvent_wrapped (ps : ParseState) (c : Nat) (p pad rest : Bytes) (st' : PState)
+    (hc : isFrameEv c = true) (h512 : (p ++ pad).length = 512)
+    (hsz : sizeOfEv ps.st.sizes EV_SPLITTER = some 516) (hraw : ps.st.splitRaw = [])
+    (hact : ps.st.splitActual + p.length < 2 ^ 32)
+    (hplain : handleEvent { ps.st with splitActual := ps.st.splitActual + p.length } c p = .ok st') :
+    parseEvent ps (encEvent (EV_SPLITTER, splitPayloadC (p ++ pad) p.length true c) ++ rest) =
+      .ok ((c, { st := st', bytesRead := ps.bytesRead + 516 + 1 }), rest) :=
+  _root_.Peppi.parseEvent_wrapped ps c p pad rest st' hc h512 hsz hraw hact hplain
 
 end Peppi.Props.C04
